@@ -49,6 +49,10 @@ def run_rpc(ctx, prop, test, cases, nontrivial, out="obs.ndjson"):
                           case=cases[o["case"] - 1] if cases else None, obs={"loaded": o["loaded"], "conc": o["conc"], "call": c})
     ctx.validated = ncalls - sum(len(bad_calls(ctx, i, obs[i])) for i in rejected)
     ctx.extra["calls_judged"] = ncalls
+    gen = {st: sum(1 for o in obs for c in o["calls"] if c["op"] == "getGenesisHash" and c["status"] == st)
+                                   for st in sorted({c["status"] for o in obs for c in o["calls"] if c["op"] == "getGenesisHash"})}
+    if gen:
+        ctx.extra["getGenesisHash"] = gen
     ctx.extra["configurations"] = len(obs)
     return obs
 
